@@ -16,6 +16,8 @@ Case kinds (all exhaustively enumerated):
           installed interface - also when a successful solve preceded the failed one (stale results): must not
           return a value (a raise, or None with a warning, is loud; a number is the violation).  readok: the same
           methods on a SOLVED model whose optimum / decisions are exactly 0 (falsy) must stay readable (counted only).
+  par   : P solved, Q solved with a params dict (SolutionLimit, Cutoff, TimeLimit, BestObjStop, NodeLimit) through
+          each interface, P re-solved and rebuilt without params: P's optimum equals the brute-force knapsack optimum.
   amb   : dro `ambiguity()` after constraints of every kind exist: must raise (same classification).
   il    : two models built in interleaved order (all merges of their operation sequences) x front-end pairs x
           uncertainty-set kinds: compiled standard form, optimum and solution of each model equal its solo build.
@@ -29,10 +31,11 @@ TIMEOUT = 60.0
 CHUNK = 8
 FLOOR = 0.5
 RULE = ('x: every entry of the cross-model table x front-end pair; redef: ordered pairs of objective methods; redef2: first objective value x method pair x second value (ro, dro, lp, socp, gcp); nsobj: '
-        'expression class/shape x objective method; read: read-back method x (unsolved | infeasible/unbounded/solved-then-infeasible x '
-        'interface); amb: constraint kind; il: every merge of the two build sequences x front-end pair x set kind. '
+        'expression class/shape x objective method; read: read-back method x (unsolved | {infeasible LP, unbounded LP, infeasible MILP, infeasible SOCP, '
+        'infeasible robust counterpart, solved-then-infeasible} x interface supporting the class) x {ro, dro, lp, socp}; '
+        'par: solver x params x front ends of P and Q; amb: constraint kind; il: every merge of the two build sequences x front-end pair x set kind. '
         'non-trivial = the misuse was actually constructed and the real code raised (at the latest in do_math) '
-        '(x, redef, nsobj, read, amb: for read the failed state is measured with optimal()==False); il: both models '
+        '(x, redef, nsobj, read, amb: for read the failed state holds by construction of the model); il: both models '
         'solved to optimality solo and interleaved, their optima differ from each other (different data) and both '
         'solutions are non-zero')
 ASSUMPTIONS = [
@@ -98,16 +101,29 @@ def gen_cases(tier, seed):
                 yield {'k': 'scobj', 'fe': fe, 'expr': name, 'meth': meth}
     for kind in AMB_KINDS:
         yield {'k': 'amb', 'kind': kind}
-    for fe in FES:
+    # read-back: full product  failure kind x interface (where the program class is supported) x front end
+    # (ro, dro, direct lp / socp models) x read-back method
+    for fe in FES + ['lp', 'socp']:
+        code = {'ro': 'r', 'dro': 'd', 'lp': 'l', 'socp': 'l'}[fe]
         for name, (fes, _) in T.READBACK.items():
-            if fe[0] not in fes:
+            if code not in fes:
                 continue
             yield {'k': 'read', 'fe': fe, 'meth': name, 'state': 'unsolved', 'solver': None}
-            for state in ('infeasible', 'unbounded', 'stale-infeasible'):
-                for solver in T.SOLVERS:
+            for state, (sfes, solvers) in T.FAIL_STATES.items():
+                if not (code in sfes or (fe == 'socp' and 's' in sfes)):
+                    continue
+                for solver in solvers:
                     yield {'k': 'read', 'fe': fe, 'meth': name, 'state': state, 'solver': solver}
-            for solver in ('def', 'eco'):
-                yield {'k': 'readok', 'fe': fe, 'meth': name, 'solver': solver}
+            if fe in FES:
+                for solver in ('def', 'eco'):
+                    yield {'k': 'readok', 'fe': fe, 'meth': name, 'solver': solver}
+    # solver parameters of one model must not leak into later solves of any model
+    for fp, fq in itertools.product(FES + ['lp'], repeat=2):
+        if 'lp' in (fp, fq) and fp != fq and not thorough:
+            continue
+        for solver in T.SOLVERS:
+            for pname in T.LEAK_PARAMS:
+                yield {'k': 'par', 'fp': fp, 'fq': fq, 'solver': solver, 'params': pname, 'pal': pal}
     # redefinition after the first objective has already been solved
     for fe in FES:
         meths = T.RO_OBJ if fe == 'ro' else T.DRO_OBJ
@@ -141,7 +157,8 @@ def bounds(tier):
     th = tier == 'thorough'
     return {'cross_entries': len(T.CROSS), 'front_end_pairs': 4, 'objective_methods': {'ro': T.RO_OBJ, 'dro': T.DRO_OBJ},
             'nonscalar_expressions': list(T.NONSCALAR), 'readback_methods': list(T.READBACK),
-            'interfaces': T.SOLVERS, 'ambiguity_after': AMB_KINDS,
+            'interfaces': T.SOLVERS, 'ambiguity_after': AMB_KINDS, 'failure_kinds': {k: v[1] for k, v in T.FAIL_STATES.items()},
+            'leak_params': list(T.LEAK_PARAMS), 'first_objective_values': list(T.FIRST_OBJ),
             'interleaving_ops_per_model': 5 if th else 4, 'merges': 252 if th else 70,
             'set_kinds': KINDS, 'set_kind_pairs': 9 if th else 3, 'palettes': 4 if th else 1}
 
@@ -159,7 +176,7 @@ def worker_init():
 
 
 def run_case(case):
-    return {'x': _run_x, 'redef': _run_redef, 'redef2': _run_redef2, 'readok': _run_readok, 'nsobj': _run_nsobj, 'scobj': _run_scobj, 'amb': _run_amb,
+    return {'x': _run_x, 'redef': _run_redef, 'redef2': _run_redef2, 'readok': _run_readok, 'par': _run_par, 'nsobj': _run_nsobj, 'scobj': _run_scobj, 'amb': _run_amb,
             'read': _run_read, 'il': _run_il}[case['k']](case)
 
 
@@ -313,13 +330,7 @@ def _run_read(case):
         return {'status': 'vacuous', 'outcome': 'read-state-not-reached:solve-raises:' + type(ex).__name__, 'ops': 20}
     if state == 'stale-infeasible' and not ctx.get('first_solve_optimal'):
         return {'status': 'vacuous', 'outcome': 'read-state-not-reached:first-solve-not-optimal(%s)' % solver, 'ops': 21}
-    if state != 'unsolved':
-        try:
-            opt = A.m.optimal()
-        except Exception:  # noqa
-            opt = None
-        if opt is not False:
-            return {'status': 'vacuous', 'outcome': 'read-state-not-reached:optimal()=%s(%s)' % (opt, solver), 'ops': 21}
+    # the failed state holds by construction of the model (infeasible / unbounded), whatever the interface reports
     fn = T.READBACK[meth][1]
     try:
         val = fn(A, ctx)
@@ -331,6 +342,40 @@ def _run_read(case):
     return {'status': 'violation', 'ops': 22,
             'sig': 'read|%s|%s|%s|%s|returns-%s' % (fe, meth, state, solver or '-', what),
             'detail': '%s on a model that is %s (%s) returned %r' % (meth, state, solver, val if val is None else str(val)[:60])}
+
+
+def _run_par(case):
+    """P solved, Q solved WITH solver parameters, then P re-solved and freshly rebuilt WITHOUT parameters: every
+    optimum of P equals the brute-force optimum of the knapsack."""
+    T = _W['T']
+    fp, fq, solver, pname, pal = case['fp'], case['fq'], case['solver'], case['params'], case['pal']
+    dp, dq = T.KNAP[pal % 4], T.KNAP[(pal + 1) % 4]
+    ref = T.knap_optimum(dp)
+    tag = 'par|%s|P=%s,Q=%s|%s' % (solver, fp, fq, pname)
+    obs = {}
+    try:
+        P0 = T.Knap(fp, dp)
+        obs['before'] = P0.solve(solver)
+    except Exception as ex:  # noqa
+        obs['before'] = 'raises:' + type(ex).__name__
+    try:
+        Q = T.Knap(fq, dq)
+        qres = Q.solve(solver, dict(T.LEAK_PARAMS[pname]))
+    except Exception as ex:  # noqa
+        qres = 'raises:' + type(ex).__name__
+    for key, build in (('resolve', lambda: P0), ('fresh', lambda: T.Knap(fp, dp))):
+        try:
+            obs[key] = build().solve(solver)
+        except Exception as ex:  # noqa
+            obs[key] = 'raises:' + type(ex).__name__
+    for key in ('before', 'resolve', 'fresh'):
+        v = obs[key]
+        if isinstance(v, str) or abs(v - ref) > 1e-6 * (1 + abs(ref)):
+            return {'status': 'violation', 'ops': 16, 'sig': tag + '|P-%s-differs-from-brute-force' % key,
+                    'detail': 'knapsack optimum %r by enumeration; P before Q: %r, Q with %s: %r, P re-solved: %r, '
+                              'P rebuilt: %r' % (ref, obs['before'], pname, qres, obs['resolve'], obs['fresh'])}
+    return {'status': 'pass', 'outcome': 'par-equal(Q:%s)' % ('raises' if isinstance(qres, str) else 'solved'),
+            'ops': 16, 'nontrivial': ref > 0, 'validated': 3}
 
 
 def _run_readok(case):
